@@ -192,90 +192,101 @@ Definition is_job (k : nat) (d : dep) : bool := match d with DJob k' => Nat.eqb 
 Definition is_tok (t : nat) (d : dep) : bool := match d with DTok t' _ => Nat.eqb t t' | _ => false end.
 
 (* ------------------------------------------------------------------ the coroutine aio_submit / aio_start *)
+(* The part of a coroutine step that only concerns the job's own record is a function on `jst`
+   that also says whether the job is added to failedJobs. *)
+
 (* after the main loop: failedJobs, then `await asyncThreadcheck("End of job processing")` *)
-Definition finish1 (s : state) (j : nat) : state :=
-  let s1 := match st (jobs s j) with DONE => s | _ => s_failed s (failed s ++ [j]) end in
-  setjob s1 j (w_pc (jobs s1 j) (PExt ADoneH)).
+Definition finish_l (r : jst) : jst * bool := (w_pc r (PExt ADoneH), negb (jstate_eqb (st r) DONE)).
 
 (* `while not job.state.finished(): await job._readyEvent.wait()` with the event clear *)
-Definition loop_tail (s : state) (j : nat) : state :=
-  if finished (st (jobs s j)) then finish1 s j else setjob s j (w_pc (jobs s j) PAwaitReady).
+Definition loop_tail_l (r : jst) : jst * bool :=
+  if finished (st r) then finish_l r else (w_pc r PAwaitReady, false).
 
 (* after `await job._readyEvent.wait()` returned *)
-Definition after_ready (s : state) (j : nat) : state :=
-  let r := w_ev (jobs s j) false in
-  match st r with
-  | READY => setjob s j (w_pc r (PExt ALockIn))          (* aio_start: async with job lock *)
-  | _ => loop_tail (setjob s j r) j
+Definition after_ready_l (r : jst) : jst * bool :=
+  let r1 := w_ev r false in
+  match st r1 with
+  | READY => (w_pc r1 (PExt ALockIn), false)             (* aio_start: async with job lock *)
+  | _ => loop_tail_l r1
   end.
 
-Definition main_loop (s : state) (j : nat) : state :=
-  if finished (st (jobs s j)) then finish1 s j
-  else if ev (jobs s j) then after_ready s j
-  else setjob s j (w_pc (jobs s j) PAwaitReady).
+Definition main_loop_l (r : jst) : jst * bool :=
+  if finished (st r) then finish_l r
+  else if ev r then after_ready_l r
+  else (w_pc r PAwaitReady, false).
+
+Definition commit (s : state) (j : nat) (p : jst * bool) : state :=
+  setjob (if snd p then s_failed s (failed s ++ [j]) else s) j (fst p).
+
+(* registration loop of aio_submit: dependency.check() for each dependency in turn.  The
+   coroutine is running, so Event.set() wakes nobody: the wake-up flag is dropped. *)
+Fixpoint reg_l (f3 : bool) (r : jst) (news : list dstatus) (i : nat) : jst :=
+  match news with
+  | [] => r
+  | n :: rest => reg_l f3 (fst (check_l f3 r i n)) rest (S i)
+  end.
 
 (* aio_submit up to its first suspension *)
-Definition run_spawn (W : workload) (fx : fixes) (s : state) (j : nat) : state :=
-  let ds := deps W j in
-  let r0 := w_st (w_ev (jobs s j) false) WAITING in
-  let s1 :=
-    match ds with
-    | [] => setjob s j (w_st (w_ev r0 true) READY)
-    | _ => fold_left (fun s i => check W fx s j i) (seq 0 (length ds))
-             (setjob s j (w_cur (w_uns r0 (Z.of_nat (length ds))) (repeat DWAIT (length ds))))
+Definition spawn_l (f3 : bool) (marker : bool) (r : jst) (news : list dstatus) : jst * bool :=
+  let r0 := w_st (w_ev r false) WAITING in
+  let r1 :=
+    match news with
+    | [] => w_st (w_ev r0 true) READY
+    | _ => reg_l f3 (w_cur (w_uns r0 (Z.of_nat (length news))) (repeat DWAIT (length news))) news 0
     end in
-  let s2 := if j_marker (spec W j) then setjob s1 j (w_st (jobs s1 j) DONE) else s1 in
-  main_loop s2 j.
+  main_loop_l (if marker then w_st r1 DONE else r1).
+
+Definition run_spawn (W : workload) (fx : fixes) (s : state) (j : nat) : state :=
+  commit s j (spawn_l (fx3 fx) (j_marker (spec W j)) (jobs s j) (map (dep_status s) (deps W j))).
 
 (* for dependency in job.dependencies: locks.append(dependency.lock().acquire()) *)
-Fixpoint acquire_all (s : state) (j : nat) (ds : list dep) (i : nat) : state * option nat :=
+Fixpoint acquire_l (av : nat -> nat) (hd : list (nat * nat)) (ds : list dep) (i : nat)
+  : (nat -> nat) * list (nat * nat) * option nat :=
   match ds with
-  | [] => (s, None)
-  | DJob _ :: r => acquire_all s j r (S i)               (* JobLock._acquire: result ignored *)
+  | [] => (av, hd, None)
+  | DJob _ :: r => acquire_l av hd r (S i)               (* JobLock._acquire: result ignored *)
   | DTok t c :: r =>
-      if (avail s t <? c)%nat then (s, Some i)           (* LockError *)
-      else acquire_all (setjob (s_avail s (upd (avail s) t (avail s t - c)%nat)) j
-                               (w_held (jobs s j) (held (jobs s j) ++ [(t, c)]))) j r (S i)
+      if (av t <? c)%nat then (av, hd, Some i)           (* LockError *)
+      else acquire_l (upd av t (av t - c)%nat) (hd ++ [(t, c)]) r (S i)
   end.
 
 (* Locks.__exit__: release in order; each release notifies the dependents of the token *)
-Fixpoint release_list (W : workload) (s : state) (l : list (nat * nat)) : state :=
+Fixpoint release_avail (av : nat -> nat) (l : list (nat * nat)) : nat -> nat :=
   match l with
-  | [] => s
-  | (t, c) :: r =>
-      let s1 := s_avail s (upd (avail s) t (avail s t + c)%nat) in
-      release_list W (enqueue_all s1 (map (fun p => CNotify (fst p) (snd p)) (dependents W s1 (is_tok t)))) r
+  | [] => av
+  | (t, c) :: r => release_avail (upd av t (av t + c)%nat) r
   end.
+Definition release_notes (W : workload) (s : state) (l : list (nat * nat)) : list cb :=
+  flat_map (fun tc => map (fun p => CNotify (fst p) (snd p)) (dependents W s (is_tok (fst tc)))) l.
 Definition release_all (W : workload) (s : state) (j : nat) : state :=
-  let s1 := release_list W s (held (jobs s j)) in
-  setjob s1 j (w_held (jobs s1 j) []).
+  let hd := held (jobs s j) in
+  s_queue (s_avail (setjob s j (w_held (jobs s j) [])) (release_avail (avail s) hd))
+          (queue s ++ release_notes W s hd).
 
 (* aio_start after the job lock has been acquired *)
 Definition start_body (W : workload) (fx : fixes) (s : state) (j : nat) : state :=
-  match acquire_all s j (deps W j) 0 with
-  | (s1, Some i) =>
+  match acquire_l (avail s) (held (jobs s j)) (deps W j) 0 with
+  | (av, hd, Some i) =>
+      let s1 := s_avail (setjob s j (w_held (jobs s j) hd)) av in
       let s2 := check W fx s1 j i in
       setjob s2 j (w_pc (jobs s2 j) (PExt ALockOutAbort))
-  | (s1, None) =>
-      let r := jobs s1 j in
-      setjob s1 j (w_pc (w_st (w_launches r (S (launches r))) RUNNING) (PExt ALockOutRun))
+  | (av, hd, None) =>
+      let r := w_held (jobs s j) hd in
+      s_avail (setjob s j (w_pc (w_st (w_launches r (S (launches r))) RUNNING) (PExt ALockOutRun))) av
   end.
 
-Definition set_event (s : state) (j : nat) : state :=
-  let '(r, wake) := set_event_l (jobs s j) in
-  let s1 := setjob s j r in if wake then enqueue s1 (CStep j) else s1.
-
 (* the aborted start returns WAITING; aio_submit stores it *)
+Definition abort_l (f4 : bool) (r : jst) : jst * bool :=
+  if f4 && (uns r =? 0)
+  then main_loop_l (fst (set_event_l (w_st r READY)))
+  else main_loop_l (w_st r WAITING).
 Definition abort_return (W : workload) (fx : fixes) (s : state) (j : nat) : state :=
-  let s1 := release_all W s j in
-  if fx4 fx && (uns (jobs s1 j) =? 0)
-  then main_loop (set_event (setjob s1 j (w_st (jobs s1 j) READY)) j) j
-  else main_loop (setjob s1 j (w_st (jobs s1 j) WAITING)) j.
+  let s1 := release_all W s j in commit s1 j (abort_l (fx4 fx) (jobs s1 j)).
 
+Definition proc_l (code : Z) (r : jst) : jst * bool :=
+  loop_tail_l (w_st r (if code =? 0 then DONE else ERROR)).
 Definition proc_return (W : workload) (s : state) (j : nat) : state :=
-  let s1 := release_all W s j in
-  let v := if j_code (spec W j) =? 0 then DONE else ERROR in
-  loop_tail (setjob s1 j (w_st (jobs s1 j) v)) j.
+  let s1 := release_all W s j in commit s1 j (proc_l (j_code (spec W j)) (jobs s1 j)).
 
 Definition notify_exit (s : state) : state :=
   match wst s with WBlocked => enqueue (s_wst s WWoken) CWakeExit | _ => s end.
@@ -287,7 +298,7 @@ Definition done_return (W : workload) (s : state) (j : nat) : state :=
 
 Definition run_step (W : workload) (fx : fixes) (s : state) (j : nat) : state :=
   match pc (jobs s j) with
-  | PWokenReady => after_ready s j
+  | PWokenReady => commit s j (after_ready_l (jobs s j))
   | PWoken ALockIn => start_body W fx s j
   | PWoken ALockOutAbort => abort_return W fx s j
   | PWoken ALockOutRun => setjob s j (w_pc (jobs s j) (PExt AProc))
